@@ -36,7 +36,8 @@ def plan(tier):
                 'after random multi-client history steps; a cell is (probe, object type, policy shape, '
                 'identity class, table decision, outcome)',
         'min_monitor': {'attempts_not_granted': 2000, 'denials_compared_with_never_issued': 2000,
-                        'locates_checked': 50},
+                        'locates_checked': 50, 'policies_replaced_at_run_time': 20, 'concurrent_foreign_items_checked': 50,
+                        'concurrent_yields_injected': 500},
         'assumptions': ['kv/model.py:granted is the most permissive reading of the property '
                         '(one-directional oracle: over-denial is not a violation)',
                         'cryptographic and indirect uses are guarded by the Get permission (docs)'],
@@ -45,7 +46,7 @@ def plan(tier):
 
 def cases(tier, seed):
     n = 16 if tier == "quick" else 320
-    return [{'hist': i} for i in range(n)]
+    return [{'hist': i} for i in range(n)] + [{'conc': i} for i in range(8 if tier == 'quick' else 96)]
 
 
 def rows_of(dump):
@@ -79,18 +80,25 @@ def rand_section(rng, complete=False):
     return sec
 
 
+GENERATED = (('p-preset', 'preset'), ('p-groups', 'groups'), ('p-both', 'both'), ('p-empty', 'neither'))
+
+
+def rand_policy(rng, shape):
+    pol = {}
+    if shape in ('preset', 'both'):
+        pol['preset'] = rand_section(rng)
+    if shape in ('groups', 'both'):
+        pol['groups'] = {g: rand_section(rng) for g in rng.sample(['g1', 'g2', 'g3'], rng.randrange(1, 3))}
+    if shape == 'neither' and rng.random() < 0.5:
+        pol['preset'] = {}
+    return pol
+
+
 def rand_policies(rng):
     pols = rig.default_policies()
     shapes = {}
-    for name, shape in (('p-preset', 'preset'), ('p-groups', 'groups'), ('p-both', 'both'), ('p-empty', 'neither')):
-        pol = {}
-        if shape in ('preset', 'both'):
-            pol['preset'] = rand_section(rng)
-        if shape in ('groups', 'both'):
-            pol['groups'] = {g: rand_section(rng) for g in rng.sample(['g1', 'g2', 'g3'], rng.randrange(1, 3))}
-        if shape == 'neither' and rng.random() < 0.5:
-            pol['preset'] = {}
-        pols[name] = pol
+    for name, shape in GENERATED:
+        pols[name] = rand_policy(rng, shape)
         shapes[name] = shape
     shapes['default'] = 'builtin'
     shapes['public'] = 'builtin'
@@ -178,7 +186,127 @@ def canaries_of(o):
     return out
 
 
+def run_concurrent(ctx, case):
+    """The decision is owed to the requester of *this* request also while other clients are being served: three
+    identities on three threads against one engine (owner-only objects under the built-in default policy, thread yields
+    injected at random executed lines of the kmip package), each mixing batches on its own objects, creations, and
+    batches on the other identities' objects.  Nothing of another identity's object may be obtained or changed, the
+    refusals read as for a never-issued identifier, every created object belongs to the identity that asked for it,
+    and the victims' rows are the same at the end."""
+    import random as _random
+    import threading
+    from kv.monitors.yields import YieldInjector
+    rng = ctx.rng()
+    rig.install_clock(rig.VClock(step=0))
+    with rig.scratch_dir() as d:
+        srv = rig.Server(d + '/db.sqlite')
+        try:
+            own, victims = {}, {}
+            for u in USERS:
+                own[u] = [store.register(srv, 'sym', u, rng, state='pre', names=['own-%s-%d' % (u, i)]) for i in range(2)]
+                victims[u] = [store.register(srv, k, u, rng, state=st_, names=['victim-%s-%s' % (u, k)], real_keys=False)
+                              for k, st_ in (('sym', 'active'), ('secret', 'pre'))]
+            if any(o is None for u in USERS for o in own[u] + victims[u]):
+                ctx.unsure('setup of the concurrent access-control history failed')
+                return
+            victim_rows0 = {int(o.uid): rows_of(srv.dump()).get(int(o.uid)) for u in USERS for o in victims[u]}
+            scripts = {}
+            for u in USERS:
+                others = [o for v in USERS if v != u for o in victims[v]]
+                reqs = []
+                for j in range(rng.randrange(5, 9)):
+                    version = rng.choice(((1, 0), (1, 2), (1, 4), (2, 0)))
+                    k = rng.randrange(4)
+                    if k == 0:      # a batch on another identity's objects: every item must be refused
+                        items = []
+                        for _ in range(rng.randrange(2, 6)):
+                            t = rng.choice(others)
+                            items.append(('foreign', t, rng.choice((op_get(t.uid), op_get_attributes(t.uid), op_get_attribute_list(t.uid),
+                                                                    op_activate(t.uid), op_destroy(t.uid),
+                                                                    op_revoke(t.uid, E.RevocationReasonCode.KEY_COMPROMISE)))))
+                    elif k == 1:    # creations: the owner must be the requester
+                        items = [('create', None, op_create(names=['made-by-%s-%d-%d' % (u, j, i)])) for i in range(rng.randrange(1, 4))]
+                    elif k == 2:    # own objects, then a foreign one, then own again
+                        t = rng.choice(others)
+                        items = [('own', own[u][0], op_get_attributes(own[u][0].uid)), ('foreign', t, op_get(t.uid)),
+                                 ('own', own[u][1], op_get(own[u][1].uid)), ('foreign', t, op_get_attributes(t.uid))]
+                    else:
+                        items = [('own', o, op_get(o.uid)) for o in own[u]] * rng.randrange(1, 3)
+                    ops = [it[2] for it in items]
+                    try:
+                        data = rig.encode_request(rig.build_request(version, ops, error_option=E.BatchErrorContinuationOption.CONTINUE), version)
+                    except Exception:
+                        continue
+                    reqs.append((items, data, version))
+                scripts[u] = reqs
+            results = {u: [] for u in USERS}
+
+            def client(u):
+                for items, data, version in scripts[u]:
+                    try:
+                        results[u].append(srv.send_bytes(data, (u, None)))
+                    except BaseException as e:      # noqa
+                        results[u].append(e)
+            threads = [threading.Thread(target=client, args=(u,)) for u in USERS]
+            with YieldInjector(_random.Random(rng.getrandbits(32)), rng.choice((0.05, 0.15, 0.3)), tool=5, name='kv-c03') as yi:
+                for t in threads:
+                    t.start()
+                for t in threads:
+                    t.join(90)
+            if any(t.is_alive() for t in threads):
+                ctx.unsure('a client thread of a concurrent C03 history did not finish within 90 s')
+                return
+            ctx.ev()
+            ctx.count('concurrent_histories')
+            ctx.count('concurrent_yields_injected', yi.yields)
+            ctx.cell('concurrent', len(USERS))
+            created = {}
+            for u in USERS:
+                for (items, data, version), res in zip(scripts[u], results[u]):
+                    if isinstance(res, BaseException) or res.error is not None:
+                        ctx.count('concurrent_requests_errored')
+                        continue
+                    for i, (kind_, target, _) in enumerate(items):
+                        it = res.item(i)
+                        if it is None:
+                            continue
+                        ctx.count('concurrent_items_checked')
+                        if kind_ == 'create' and it['status'] == 0:
+                            created[int(res.uid(i))] = u
+                        if kind_ != 'foreign':
+                            continue
+                        ctx.count('concurrent_foreign_items_checked')
+                        opn = E.Operation(it['operation']).name.lower() if it.get('operation') is not None else '?'
+                        key = 'concurrent|%s|%s|' % (opn, target.kind)
+                        detail = {'requester': u, 'owner': target.owner, 'object': target.uid, 'version': version, 'answer': res.brief()[i:i + 1]}
+                        if it['status'] == 0:
+                            ctx.violation(key + 'succeeded', '%s by %r on object %s of %r succeeded while other clients were being served '
+                                          '(default policy: owner only)' % (opn, u, target.uid, target.owner), detail)
+                        elif it['message'] != 'Could not locate object: %s' % target.uid:
+                            ctx.violation(key + 'text', 'refusal of %s by %r on object %s of %r reads %r' % (opn, u, target.uid, target.owner, it['message']), detail)
+                    for o in [o_ for v in USERS if v != u for o_ in victims[v] + own[v]]:
+                        for c in canaries_of(o)[:1]:
+                            if res.data and c in res.data:
+                                ctx.violation('concurrent|canary', 'a response to %r contains the value of object %s of %r' % (u, o.uid, o.owner), None)
+            dump = srv.dump()
+            rows = rows_of(dump)
+            for uid_, u in created.items():
+                ctx.count('concurrent_owner_rows_checked')
+                r_ = rows.get(uid_)
+                if r_ is not None and r_['managed_objects'][8] != u:
+                    ctx.violation('concurrent|owner', 'object %s created by %r is stored with owner %r'
+                                  % (uid_, u, r_['managed_objects'][8]), None)
+            for uid_, before in victim_rows0.items():
+                if rows.get(uid_) != before:
+                    ctx.violation('concurrent|changed', 'object %s, which only its owner may touch and its owner never did, changed during the '
+                                  'concurrent history' % uid_, {'before': str(before)[:400], 'after': str(rows.get(uid_))[:400]})
+        finally:
+            srv.close()
+
+
 def run_case(ctx, case):
+    if 'conc' in case:
+        return run_concurrent(ctx, case)
     rng = ctx.rng()
     clock = rig.install_clock(rig.VClock(step=1))
     pols, shapes = rand_policies(rng)
@@ -212,6 +340,14 @@ def run_case(ctx, case):
                     creators[int(h.uid)] = u
             policy_ops = model.POLICY_OP
             for sweep in range(3):
+                if sweep:
+                    # the policies in force change while the server runs (what the policy directory monitor does when a
+                    # file is edited: the entry of the shared policy store is replaced under the same name); from here
+                    # on every decision is owed to the new definitions
+                    for name, shape in GENERATED:
+                        if rng.random() < 0.75:
+                            srv.policies[name] = rand_policy(rng, shape)
+                            ctx.count('policies_replaced_at_run_time')
                 # a little history by several clients
                 for _ in range(24):
                     v = rng.choice(rig.VERSIONS)
